@@ -5,7 +5,7 @@
    any sequence of calls of the translated code behaves like the abstract seed model. *)
 From Coq Require Import String.
 From PS Require Import Base GFDefs PackDefs StoreDefs MiscDefs StrDefs LangDefs ApiDefs SpecDefs SpecApi.
-From PS Require Import GFProofs MiscProofs PackProofs PackTheorems StoreProofs SeedProofs ApiLemmas RefineProofs ApiTheorems TraceProofs FrameProofs.
+From PS Require Import GFProofs MiscProofs PackProofs PackTheorems StoreProofs SeedProofs ApiLemmas RefineProofs ApiTheorems TraceProofs FrameProofs SafetyProofs.
 From PS Require Import CTieBase CTieLang CTiePhrase CTieFeat CTieStore CTieSplit CTieApi CTieDecode CTieEncode CTieInject.
 From PS.Gen Require Import Consts PrivConsts Langs.
 From PS.Gen Require CFuns CApi.
@@ -497,5 +497,30 @@ Section Machine.
   Proof.
     intros Da Db V Hh Ra Rb. rewrite (crun_run a ops Ra), (crun_run b _ Rb).
     apply interleaving_invisible; assumption.
+  Qed.
+
+  (* C14 on the code: on every well-formed call the translated code terminates within the fuel (cstep never takes
+     its out-of-fuel branch: it equals the mirror step, which never faults), and the status it returns is one of those
+     documented for the function *)
+  Theorem code_no_fault cs a o : R cs a -> op_ok o -> SafetyProofs.lang_ok_op o -> op_ready cs o ->
+    (forall h, touches o = Some h -> heap_get (st_heap cs) h <> None) ->
+    snd (fst (cstep cs o)) <> OutFault.
+  Proof.
+    intros HR Ho Hl Hr Hh. rewrite (cstep_ok cs o Hr). exact (SafetyProofs.no_fault sgn cs a o HR Ho Hl Hh).
+  Qed.
+
+  Theorem code_status_range cs a o : R cs a -> op_ok o -> op_ready cs o ->
+    match o with
+    | OpCreate _ _ _ _ => SafetyProofs.status_in [ST_OK; ST_UNSUPPORTED; ST_MEMORY] (snd (fst (cstep cs o)))
+    | OpLoad _ _ => SafetyProofs.status_in [ST_OK; ST_FORMAT; ST_CHECKSUM; ST_UNSUPPORTED; ST_MEMORY] (snd (fst (cstep cs o)))
+    | OpDecode _ _ _ =>
+      SafetyProofs.status_in [ST_OK; ST_NUM_WORDS; ST_LANG; ST_MULT_LANG; ST_CHECKSUM; ST_UNSUPPORTED; ST_MEMORY] (snd (fst (cstep cs o)))
+    | OpDecodeExplicit _ _ _ _ =>
+      SafetyProofs.status_in [ST_OK; ST_NUM_WORDS; ST_LANG; ST_CHECKSUM; ST_UNSUPPORTED; ST_MEMORY] (snd (fst (cstep cs o)))
+    | _ => True
+    end.
+  Proof.
+    intros HR Ho Hr. pose proof (SafetyProofs.status_range sgn cs a o HR Ho) as S. rewrite (cstep_ok cs o Hr).
+    destruct o; exact S || exact I.
   Qed.
 End Machine.
